@@ -33,7 +33,11 @@ TARGETS = ['PyIpmi.Props.C19', 'drv_c19']
 LEVEL = 'proof'
 RULE = ('HISTORIES: 2-4 calls (rmcp_ping / is_ipmc_accessible / send_and_receive_raw, with the session\'s credentials, '
         'auth type, host/port or privilege level changed in place or the session established again in between; failed '
-        'pings; the same Target object used twice) on ONE Ipmitool object, for the 4 interface types x no-auth / plain / '
+        'pings; the same Target object used twice; ONE Target object used, then CHANGED IN PLACE - target.ipmb_address = …, '
+        'target.set_routing([...]) / set_routing("[...]") / set_routing_information([...]), routing dropped again; address '
+        'changes, routing depth 1>2>3>3>1>2, address>routing>address, two such objects interleaved - and used again, judged '
+        'against the argv the CURRENT state of the target demands; evidence history:target-object-changed-in-place:*) on ONE '
+        'Ipmitool object, for the 4 interface types x no-auth / plain / '
         'shell-special credentials, directed (every ordered pair of call kinds, every change between two calls) + seeded; '
         'every call runs through the real /bin/sh and is judged on its own against the argument vector its settings demand '
         'and compared with the Lean builder model; 3-6 canned replies (data, rsp= lines, time-outs, connection errors) read '
@@ -174,6 +178,28 @@ def real_target(t):
     tg = Target(t[1] or None)
     tg.set_routing([tuple(h) for h in t[2]])
     return tg
+
+
+def retarget(tg, old, new, via=None):
+    """Bring the EXISTING Target object `tg` (in state `old`) into state `new` the way applications do it: assignment
+    to `ipmb_address`, `set_routing` / `set_routing_information` (list of tuples, or the string form set_routing
+    accepts), `routing = None` when the routing is dropped again.  `old` / `new`: ['a', addr] | ['r', addr, hops]."""
+    if new is None or old is None:
+        raise ValueError('a named Target object cannot become None')
+    if new[0] == 'a':
+        if old[0] == 'r':
+            tg.routing = None
+        tg.ipmb_address = new[1]
+        return
+    if (old[1] or None) != (new[1] or None):
+        tg.ipmb_address = new[1] or None
+    hops = [tuple(h) for h in new[2]]
+    if via == 'string':
+        tg.set_routing(repr(hops))
+    elif via == 'set_routing_information':
+        tg.set_routing_information(hops)
+    else:
+        tg.set_routing(hops)
 
 
 def make_iface(case, path):
@@ -896,7 +922,7 @@ def exec_history(case):
             rec['commands'] = rec.get('commands', 0) + 1
             return cur['reply']
         i._run_ipmitool = recording
-        targets = {}
+        targets, objs = {}, {}
         with work:
             for st in case['steps']:
                 do = st['do']
@@ -937,10 +963,23 @@ def exec_history(case):
                             cur['reply'] = (b'', st.get('rc', 0))
                         rec['ret'] = 'accessible=%s' % i.is_ipmc_accessible(None)
                     else:
-                        key = tgt_token(st.get('target'))
-                        if key not in targets:           # the same Target object serves every request to that target
-                            targets[key] = real_target(st.get('target'))
-                        rec['ret'] = 'ok ' + lean.hexs(i.send_and_receive_raw(targets[key], st['lun'], st['netfn'],
+                        if st.get('obj') is not None:
+                            # a NAMED Target object: created in the state of its first step, afterwards MUTATED in place
+                            # (ipmb_address assignment, set_routing / set_routing_information) into the state the step
+                            # names - the request must carry the options of the state the object has NOW
+                            if st['obj'] not in objs:
+                                objs[st['obj']] = [real_target(st.get('target')), st.get('target')]
+                            else:
+                                o_ = objs[st['obj']]
+                                retarget(o_[0], o_[1], st.get('target'), st.get('via'))
+                                o_[1] = st.get('target')
+                            tg = objs[st['obj']][0]
+                        else:
+                            key = tgt_token(st.get('target'))
+                            if key not in targets:       # the same Target object serves every request to that target
+                                targets[key] = real_target(st.get('target'))
+                            tg = targets[key]
+                        rec['ret'] = 'ok ' + lean.hexs(i.send_and_receive_raw(tg, st['lun'], st['netfn'],
                                                                              bytes(bytearray(st['raw']))))
                 except Exception as e:  # noqa
                     rec['raised'] = tag_of(e)
@@ -1057,8 +1096,12 @@ def _step_text(st):
         return 'establish_session(%s)' % ('a new Session with the same settings' if st.get('fresh') else 'the same Session')
     if st['do'] == 'raw':
         rp = st.get('reply')
-        return 'send_and_receive_raw(target %s, lun %d, netfn %d, %d bytes)%s' % (
-            tgt_token(st.get('target')), st['lun'], st['netfn'], len(st['raw']),
+        obj = ''
+        if st.get('obj') is not None:
+            obj = 'Target object %r, created in / changed in place (%s) to the state ' % (
+                st['obj'], {'string': 'set_routing("[...]")', None: 'ipmb_address = … / set_routing'}.get(st.get('via'), st.get('via')))
+        return 'send_and_receive_raw(%starget %s, lun %d, netfn %d, %d bytes)%s' % (
+            obj, tgt_token(st.get('target')), st['lun'], st['netfn'], len(st['raw']),
             '' if rp is None else ' answered with %s rc=%d' % (ascii(from_cps(rp['output']))[:80], rp['rc']))
     return {'ping': 'rmcp_ping()', 'accessible': 'is_ipmc_accessible()'}[st['do']] + \
         (' (program exits with %d)' % st['rc'] if st.get('rc') else '')
@@ -1074,6 +1117,26 @@ def _raw_step(rng, target=None, reply=None):
           'netfn': rng.randrange(64), 'raw': [rng.randrange(256) for _ in range(rng.choice([1, 2, 5]))]}
     if reply is not None:
         st['reply'] = reply
+    return st
+
+
+# routings by depth (two of each): shelf manager only; blade behind it; AMC behind a carrier / MCH (README examples)
+ROUTES = {1: [[[0x81, 0x20, 0]], [[0x81, 0x10, 7]]],
+          2: [[[0x81, 0x20, 7], [0x20, 0x84, 0]], [[0x81, 0x20, 0], [0x20, 0x82, 0]]],
+          3: [[[0x81, 0x20, 0], [0x20, 0x82, 7], [0x20, 0x72, 0]], [[0x81, 0x20, 0], [0x20, 0x8e, 7], [0x20, 0x80, 0]]]}
+
+
+def _tstate(t):
+    return 'address' if t[0] == 'a' else 'routing-depth-%d' % len(t[2])
+
+
+def _obj_step(rng, obj, target, via=None):
+    """a raw request through the NAMED Target object `obj`: its first step creates it in state `target`, every later
+    one changes the existing object in place into `target` (see retarget) before the request"""
+    st = _raw_step(rng, target)
+    st['obj'] = obj
+    if via is not None:
+        st['via'] = via
     return st
 
 
@@ -1110,15 +1173,40 @@ def gen_histories(ctx, rng):
                 cipher=rng.choice([None, 3, '17']))
             t = rng.choice(HIST_TARGETS[3:])
             add('same-target-object-twice', iface, auth, [_raw_step(rng, t), _raw_step(rng, ['a', 0x20]), _raw_step(rng, t)])
+            # ONE Target object, used, then CHANGED IN PLACE (Target is mutable: ipmb_address, set_routing,
+            # set_routing_information), used again: every request carries the options of the state the object has at
+            # that moment.  Address changes; routing depth 1 -> 2 -> 3 -> 3 (other AMC) -> 1 -> 2; the README idiom (plain
+            # address first, routing set afterwards) and back to a plain address
+            vias = [None, 'set_routing_information', 'string']
+            rng.shuffle(vias)
+            add('target-object-readdressed', iface, auth,
+                [_obj_step(rng, 'T', ['a', 0x20]), _obj_step(rng, 'T', ['a', 0x82]),
+                 _obj_step(rng, 'T', ['a', rng.choice([0x72, 0x74, 0xb0, 1, 0xff])]), _obj_step(rng, 'T', ['a', 0x20])])
+            add('target-object-rerouted', iface, auth,
+                [_obj_step(rng, 'T', ['r', 0, ROUTES[1][0]]), _obj_step(rng, 'T', ['r', 0, ROUTES[2][0]], vias[0]),
+                 _obj_step(rng, 'T', ['r', 0, ROUTES[3][0]], vias[1]), _obj_step(rng, 'T', ['r', 0, ROUTES[3][1]], vias[2]),
+                 _obj_step(rng, 'T', ['r', 0, ROUTES[1][1]], vias[0]), _obj_step(rng, 'T', ['r', 0, ROUTES[2][1]], vias[1])])
+            add('target-object-addressed-then-routed', iface, auth,
+                [_obj_step(rng, 'T', ['a', 0x20]), _obj_step(rng, 'T', ['r', 0x20, ROUTES[2][0]], vias[2]),
+                 _obj_step(rng, 'U', ['a', 0x74]), _obj_step(rng, 'T', ['r', 0x82, ROUTES[3][0]], vias[0]),
+                 _obj_step(rng, 'T', ['a', 0x82]), _obj_step(rng, 'U', ['a', 0x76])])
     n = 60 if ctx.tier == 'quick' else 1500
     for it in range(n):
         iface = rng.choice(['lan', 'lanplus', 'lan', 'lanplus', 'open', 'serial-terminal'])
         steps = []
         ncalls = rng.choice([2, 2, 3, 3, 4])
+        objmode = rng.random() < 0.35        # most requests of this history go through named, re-used Target objects
         while sum(1 for s_ in steps if s_['do'] in ('ping', 'accessible', 'raw')) < ncalls:
             x = rng.random()
-            if x < 0.4:
+            if x < (0.08 if objmode else 0.34):
                 steps.append(_raw_step(rng))
+            elif x < 0.4:
+                # one of two named Target objects, changed in place to a new state before each further use
+                t = rand_target(rng) if rng.random() < 0.5 else rng.choice(HIST_TARGETS[1:])
+                while t is None or (t[0] == 'r' and len(t[2]) > 3):
+                    t = rand_target(rng)
+                steps.append(_obj_step(rng, rng.choice(['T', 'T', 'T', 'U']), t,
+                                       rng.choice([None, None, 'set_routing_information', 'string'])))
             elif x < 0.6:
                 steps.append(dict(ping, rc=rng.choice([0, 0, 0, 1])))
             elif x < 0.7:
@@ -1210,6 +1298,13 @@ def run_histories(ctx, var):
         ctx.count('history:calls=%d' % len(calls))
         for a, b in zip(calls, calls[1:]):
             ctx.count('history:%s-then-%s' % (a, b))
+        seen_obj = {}
+        for s_ in steps:
+            if s_.get('obj') is not None:
+                if s_['obj'] in seen_obj:
+                    ctx.count('history:target-object-changed-in-place:%s:%s->%s' % (
+                        case['iface'], _tstate(seen_obj[s_['obj']]), _tstate(s_['target'])))
+                seen_obj[s_['obj']] = s_['target']
         found = history_findings(case, res, ctx, drv, var)
         if not found:
             continue
